@@ -917,7 +917,7 @@ func checkC13(c *Check) {
 				key := "PrepareConn:set" + itoa(nset)
 				recv := callRecv(call)
 				v, isVar := objOf(pi, recv).(*types.Var)
-				if _, isIdent := ast.Unparen(recv).(*ast.Ident); !isIdent || !isVar || v.IsField() || !posIn(pc.FI.Decl.Body, v.Pos()) || posIn(lit, v.Pos()) {
+				if _, isIdent := ast.Unparen(recv).(*ast.Ident); !isIdent || !isVar || v.IsField() || !localIn(pc.FI.Decl.Body, v) || localIn(lit, v) {
 					c.Hold("R6", key, call.Pos(), false, "the lookup goroutine completes `"+exprStr(recv)+"`, read when the lookup is done: if the connection attempt fails first, the next PrepareConn has replaced it and this MX's records decide the next MX's connection (and that MX's own result is dropped)")
 					continue
 				}
